@@ -38,6 +38,7 @@ def check(ctx, rep):
     rep.rule("R07d", "dot-files are never added to the listing by the UMN handler", floor=1)
     rep.rule("R07e", "entrycmp has no effects and reads only name/num", floor=1)
     rep.rule("R07g", "entries hidden by metadata stay hidden: MergeLinkFiles removes the walked entry for Type=X, never re-adds a block for a walked file, keeps its selector index intact", floor=1)
+    rep.rule("R07i", "= R10c: the listing kept for later requests is the final one (hidden names removed, merged, sorted) - never an intermediate list", floor=2)
     rep.rule("R07h", "the real-file-system VFS lists names exactly as the OS returns them (file-system decoding only): the selector built from a listed name is the name on disk", floor=1)
     rep.rule("R07f", "a name is appended to the file list exactly when the filter accepts it, once", floor=1)
     dirbase = ctx.cls("handlers.dir.DirHandler")
@@ -179,6 +180,9 @@ def check(ctx, rep):
 
         merge_obligations(ctx, rep, umn, rule_c="R07g", only_merge=True)
 
+    # ------------------------------------------------------------------ R07i
+    from .c10 import save_order_obligations
+    save_order_obligations(ctx, rep, "R07i")
     # ------------------------------------------------------------------ R07h
     vfsr = ctx.cls("handlers.base.VFS_Real")
     ld = vfsr.methods.get("listdir") if vfsr else None
